@@ -197,7 +197,11 @@ impl {F} {{""")
         b = re.sub(r'Some\(i\) => \{', 'Some(i) => { proof { lemma_div_step(v0, (it1.n + 1) as nat); lemma_pw_step(mv(*self), v0 / pow2((it1.n + 1) as nat), i, QM()); } let ghost r_in = res;', b, count=1)
         return b
     sig, body = uu.slice_fn('', 're:pub trait Field:', 'pow')
-    t = uu.real_fn('', 're:pub trait Field:', 'pow', "    requires lv(self.0) < QM()\n    ensures lv(ret.0) < QM(), mv(ret) == pw(mv(*self), limbs_val(exp@), QM())",
+    # R24: an inherent `pow` on the field type would take over every `x.pow(..)` call site; it is then the text that must meet the contract
+    pow_src, pow_at = (u, (mod, f're:^impl\\s+{F}\\b(?!.*\\bfor\\b)')) if u.src.inherent_fn(F, 'pow') is not None else (uu, ('', 're:pub trait Field:'))
+    if pow_src is u:
+        u.rewrites['R24'] = u.rewrites.get('R24', 0) + 1
+    t = pow_src.real_fn(pow_at[0], pow_at[1], 'pow', "    requires lv(self.0) < QM()\n    ensures lv(ret.0) < QM(), mv(ret) == pw(mv(*self), limbs_val(exp@), QM())",
                    ret='ret', vis='pub', body_edit=pow_edit, tail="proof { assert(pow2(0) == 1); }",
                    sig_edit=lambda sg: re.sub(r'<S:\s*AsRef<\[u64\]>>', '<const N: usize>', sg).replace('exp: S', 'exp: [u64; N]'))
     u.functions.append(f"ff-zeroize-{ver}|trait Field|pow@{F}")
